@@ -11,6 +11,8 @@
             serializing                                                                         (found F24)
   DECF64    an f64 presented for a decimal is converted through its shortest printed representation, not from_f64
             (found F33); CAPREG: a registered (kind, key) has an arm (no reviewed "yields Err" exceptions: F34)
+            decimal text is parsed exactly (from_str_exact: F40); every integer hint reads a decimal as an integer (F44);
+            built-in type names never shadow the names of named types in the per-name table (F39)
   ENUMSYM   an Avro enum reaches the caller by symbol text through every hint a Rust enum / identifier / string uses
             (identifier, any, str, string), never by bare position: the serializer resolves unit variants by name
   shared    DECSCALE + FREEZEMAP (c02), SLICE / VARINT / FIXEDBUF reading primitives (c11), POOLCLEAN (c14: pooled
